@@ -4,10 +4,11 @@ mod db;
 
 use std::alloc::{GlobalAlloc, Layout, System};
 
-/// Allocation probe: behaves exactly like the system allocator, but a request
-/// of >= 1 GiB is first logged to stderr together with the innermost pallas
-/// frame that asked for it. When such a request then aborts the (worker)
-/// process, the C43 parent can name the allocation site.
+/// Allocation probe: behaves exactly like the system allocator, but when a
+/// request of >= 1 GiB FAILS (the caller is then about to abort the process
+/// through handle_alloc_error) it first logs the innermost pallas frame that
+/// asked for the memory to stderr, so that the C43 parent can name the
+/// allocation site of the dead worker.
 struct Probe;
 
 const BIG: usize = 1 << 30;
@@ -33,25 +34,28 @@ fn note(size: usize) {
 
 unsafe impl GlobalAlloc for Probe {
     unsafe fn alloc(&self, l: Layout) -> *mut u8 {
-        if l.size() >= BIG {
+        let p = System.alloc(l);
+        if p.is_null() && l.size() >= BIG {
             note(l.size());
         }
-        System.alloc(l)
+        p
     }
     unsafe fn alloc_zeroed(&self, l: Layout) -> *mut u8 {
-        if l.size() >= BIG {
+        let p = System.alloc_zeroed(l);
+        if p.is_null() && l.size() >= BIG {
             note(l.size());
         }
-        System.alloc_zeroed(l)
+        p
     }
     unsafe fn dealloc(&self, p: *mut u8, l: Layout) {
         System.dealloc(p, l)
     }
     unsafe fn realloc(&self, p: *mut u8, l: Layout, n: usize) -> *mut u8 {
-        if n >= BIG {
+        let q = System.realloc(p, l, n);
+        if q.is_null() && n >= BIG {
             note(n);
         }
-        System.realloc(p, l, n)
+        q
     }
 }
 
